@@ -1318,7 +1318,7 @@ impl<'w, 'k, W: Write> SerializeTupleVariant for Tuple<'w, 'k, W> {
     }
 //@end
 //@extract element::Tuple::end | src/se/element.rs :: impl<'w, 'k, W: Write> SerializeTupleVariant for Tuple<'w, 'k, W> :: fn end | serves=C19 features=serialize
-//@rewrite .map(|_| ==> .map(|_w: &'w mut W|
+//@rewrite .map(|_c| ==> .map(|_w: &'w mut W|
     fn end(self) -> Result<Self::Ok, Self::Error> {
         match self {
             Self::Element(ser) => SerializeTuple::end(ser),
